@@ -4,6 +4,7 @@ import (
 	"fmt"
 	"go/constant"
 	"go/token"
+	"reflect"
 	"sort"
 	"strings"
 
@@ -26,11 +27,15 @@ type treeOracle struct {
 	// domain of an atom (nil: not known here). An atom with the two-valued domain {0,1} stands for equal / not equal
 	// (or, against the constant 0, for zero / positive): it cannot answer <, <=, >, >= against anything else
 	domain func(key string) []int
+	// eqOnly: the rule uses the shared two-valued domain binDomain (equal / not equal) for every atom. A rule that
+	// supplies its own domain function has chosen the values of each atom itself (e.g. {0,1} = "at least", under a
+	// stated premise) and answers for them.
+	eqOnly bool
 }
 
 func (o *treeOracle) CmpOp(op token.Token, a, b pred.Val) (int, bool) {
 	ordering := op == token.LSS || op == token.LEQ || op == token.GTR || op == token.GEQ
-	if ordering && o.domain != nil {
+	if ordering && o.domain != nil && o.eqOnly {
 		handled := false
 		if o.fixed != nil {
 			_, _, handled = o.fixed(a, b)
@@ -149,7 +154,7 @@ func extractTreeFull(prog *ssa.Program, fn *ssa.Function, mkArgs func() []pred.V
 		if len(leaves) > maxLeaves {
 			return fmt.Errorf("more than %d abstract valuations", maxLeaves)
 		}
-		o := &treeOracle{assign: assign, fixed: fixed, keyOf: keyOf, domain: domain}
+		o := &treeOracle{assign: assign, fixed: fixed, keyOf: keyOf, domain: domain, eqOnly: reflect.ValueOf(domain).Pointer() == reflect.ValueOf(binDomain).Pointer()}
 		ev := &pred.Evaluator{Prog: prog, Oracle: o, Summaries: sums, GlobalInit: globals, Fallback: fallback}
 		out, err := ev.Eval(fn, mkArgs())
 		if err != nil && o.unknown != "" {
